@@ -11,7 +11,7 @@ package traversal
 
 // The data-structure invariant of a running lookup, established by Start and kept by every critical section of op.mu:
 // the callbacks are set, the containers exist, and every contact of the frontier passed the node filter.
-//@ spec def opinv(op *Operation) bool = op != nil && op.queried != nil && op.unqueried != nil && op.input.NodeFilter != nil && op.input.DataFilter != nil && op.input.DoQuery != nil && 0 <= op.outstanding && (op.outstanding <= op.input.Alpha || op.outstanding == 0) && (forall y types.AddrMaybeId :: has(op.unqueried, y) ==> nodeok(op.input.NodeFilter, y))
+//@ spec def opinv(op *Operation) bool = op != nil && op.queried != nil && op.unqueried != nil && op.input.NodeFilter != nil && op.input.DataFilter != nil && op.input.DoQuery != nil && op.closest.inner != nil && op.closest.k >= 1 && 0 <= op.outstanding && (op.outstanding <= op.input.Alpha || op.outstanding == 0) && (forall y types.AddrMaybeId :: has(op.unqueried, y) ==> nodeok(op.input.NodeFilter, y))
 // akey(a): the string under which an address is remembered as queried
 //@ spec def akey(a krpc.NodeAddrPort) addrString = addrString(a.AddrPort.String())
 
@@ -77,13 +77,15 @@ package traversal
 
 // haveQuery: the stall predicate (C03). A candidate qualifies if the result set is not full, or it has a known ID that is
 // no farther from the target than the farthest member.
+//@ spec def full(op *Operation) bool = smlen(op.closest.inner) >= op.closest.k
 //@ func (*dht/traversal.Operation).haveQuery
-//@   requires nonnil: op != nil && op.unqueried != nil
+//@   requires nonnil: op != nil && op.unqueried != nil && op.closest.inner != nil && op.closest.k >= 1
 //@   option records havequery
 //@   ensures nothing-to-ask-on-an-empty-frontier: op.unqueried.Len() == 0 ==> !result
-//@   ensures ask-while-the-result-set-is-not-full: op.unqueried.Len() != 0 && !op.closest.Full() ==> result
-//@   ensures unknown-ids-do-not-qualify-once-full: op.unqueried.Len() != 0 && op.closest.Full() && !op.unqueried.Next().Id.Ok ==> !result
-//@   ensures ask-while-the-nearest-candidate-is-no-farther-than-the-farthest-member: op.unqueried.Len() != 0 && op.closest.Full() && op.unqueried.Next().Id.Ok ==> result == !ult(op.closest.Farthest().Key.ID ^ op.targetInt160.bits, op.unqueried.Next().Id.Value.bits ^ op.targetInt160.bits)
+//@   ensures ask-while-the-result-set-is-not-full: op.unqueried.Len() != 0 && !full(op) ==> result
+//@   ensures unknown-ids-do-not-qualify-once-full: op.unqueried.Len() != 0 && full(op) && !op.unqueried.Next().Id.Ok ==> !result
+//@   ensures ask-while-the-nearest-candidate-is-no-farther-than-the-farthest-member: op.unqueried.Len() != 0 && full(op) && op.unqueried.Next().Id.Ok ==> result == !ult(recorded("farthest").Key.ID ^ op.targetInt160.bits, op.unqueried.Next().Id.Value.bits ^ op.targetInt160.bits)
+//@   ensures the-farthest-member-is-what-it-is-compared-with: op.unqueried.Len() != 0 && full(op) && op.unqueried.Next().Id.Ok ==> kmem(op.closest, recorded("farthest").Key) && (forall y krpc.NodeInfoAddrPort :: kmem(op.closest, y) ==> !korder(op.closest, recorded("farthest").Key, y))
 
 //@ func (*dht/traversal.Operation).startQuery
 //@   requires inv: opinv(op) && wheld(op.mu)
@@ -219,6 +221,7 @@ package traversal
 // ---- Start: the invariant holds before the run loop and any caller can touch the lookup ----
 //@ func dht/traversal.Start
 //@   requires a-query-function: input.DoQuery != nil
+//@   requires a-capacity: input.K >= 0
 //@   option records lookup
 //@   ensures the-invariant-holds-from-the-start: opinv(result)
 //@   ensures unlocked: !held(result.mu)
